@@ -54,7 +54,18 @@ var cores = []string{
 	"block-recv-nested", "block-send-expr-arg",
 	"spin-cfor-empty", "spin-true-empty", "spin-forin-empty", "spin-recursion-quiet", "spin-forin-big", "spin-anon-expr", "block-recv-after-first",
 	"block-range-body-recv", "block-range-shared", "spin-fib", "spin-mutual",
+	"lib-spin-5", "lib-spin-v", "lib-block-5", "lib-block-v", "lib-spin-1",
 }
+
+// prelude is run once, under its own never-cancelled context, on the environment the cancelled run
+// will use: a library loaded at start-up. The lib-* cores only call into it.
+const prelude = `
+func libspin5(a, b, c, d, e) { for { tick() } }
+func libspinv(a, rest...) { for { tick() } }
+func libspin1(a) { for { tick() } }
+func libblock5(a, b, c, d, e) { ch = make(chan int64); <-ch }
+func libblockv(a, rest...) { ch = make(chan int64); v, ok = <-ch }
+`
 
 var wrapKinds = []struct {
 	k string
@@ -115,6 +126,16 @@ func renderCore(core string, u string) string {
 		return "for { func(a, b) { return a + b }(1, 2) }"
 	case "block-recv-after-first":
 		return "c" + u + " = make(chan int64, 1)\nc" + u + " <- 1\nfor v" + u + " in c" + u + " { tick() }"
+	case "lib-spin-5":
+		return "libspin5(1, 2, 3, 4, 5)"
+	case "lib-spin-v":
+		return "libspinv(1, 2, 3)"
+	case "lib-spin-1":
+		return "libspin1(1)"
+	case "lib-block-5":
+		return "libblock5(1, 2, 3, 4, 5)"
+	case "lib-block-v":
+		return "libblockv([1, 2]...)"
 	case "block-range-body-recv":
 		// the loop body takes an item the range already counted as buffered
 		return "c" + u + " = make(chan int64, 4)\nc" + u + " <- 1\nc" + u + " <- 2\nc" + u + " <- 3\nc" + u + " <- 4\nfor k" + u + " in c" + u + " { v" + u + " = <-c" + u + " }"
@@ -530,6 +551,14 @@ func (Prop) Run(t *testing.T, c *harness.Case, verbose bool) *harness.Result {
 				AtIdleTime: time.Duration(ev.AtFakeNs), Name: "cancel", Do: cancel})
 		}
 		mainTask = sim.Spawn("main", func() {
+			if strings.HasPrefix(w.Core, "lib-") {
+				// an earlier, completed run under another context defined the library
+				if _, perr := vm.ExecuteContext(sim.NewCtx(), e, &vm.Options{Debug: false}, prelude); perr != nil {
+					mainErr = perr
+					mainDone = true
+					return
+				}
+			}
 			_, mainErr = vm.RunContext(ctx, e, &vm.Options{Debug: false}, stmt)
 			mainDone = true
 		})
